@@ -2,7 +2,8 @@
   C07 — totality / containment ops: the same executable model as C06 (Driver/C06.lean), under the
   property's own op names so that the two checks stay independent on the line protocol.
 
-    c07.verify  scriptSig scriptPubKey flags tx inIdx   → `<model> ~ <ref>`   (see Driver/C06.lean)
+    c07.verify  scriptSig scriptPubKey flags tx inIdx   → `<model> ~ <ref>`   (see Driver/C06.lean); an
+                   EvalScriptError carries the captured state: `err:validation{stack|altstack|nOpCount}`
     c07.eval    script stack flags tx inIdx             → `<model> ~ <ref>`
     c07.seq     (kind a0 a1 flags tx inIdx txref)*      → step replies joined by ` ;; `
 -/
@@ -14,9 +15,9 @@ open BtcVerif Driver
 
 def handle (op : String) (args : List String) : Option String :=
   match op with
-  | "c07.verify" => C06.handle "c06.verify" args
-  | "c07.eval" => C06.handle "c06.eval" args
-  | "c07.seq" => C06.handle "c06.seq" args
+  | "c07.verify" => C06.handleWith true "c06.verify" args
+  | "c07.eval" => C06.handleWith true "c06.eval" args
+  | "c07.seq" => C06.handleWith true "c06.seq" args
   | _ => none
 
 end Driver.C07
